@@ -182,7 +182,12 @@ impl Accept {
                 Some(WakerInterest::WorkerAvailable(idx)) => {
                     drop(guard);
 
-                    self.avail.set_available(idx, true);
+                    // A notification can arrive late, after the handle of a faulted worker has been
+                    // removed. Marking an index without handle as available would make the accept
+                    // loop look for a worker that does not exist.
+                    if self.handles.iter().any(|handle| handle.idx() == idx) {
+                        self.avail.set_available(idx, true);
+                    }
 
                     if !self.paused {
                         self.accept_all(sockets);
